@@ -31,6 +31,49 @@ theorem commitBk_refines (ps sth rth fu : Nat) (orig cur : Bk) (order : List Nat
       -- the trees may have grown by new root levels: the next transaction needs more fuel
       fu ≤ fu' ∧ origShapeOk fu' (full orig fu [] cur') = true ∧
       absTop fu' (full orig fu [] cur') (full orig fu [] cur') = absTop fu orig cur := by
-  sorry
+  have e1 : ∀ (f : Nat) (b : Bk), fuelOk fu f b = BktCommitL.fuelOk' fu f b := by
+    intro f
+    induction f with
+    | zero => intro b; rfl
+    | succ f ih => intro b; cases b; simp only [fuelOk, BktCommitL.fuelOk', ih]
+  have e2 : ∀ (f : Nat) (b : Bk), allMatPgids fu f b = BktCommitL.allMat fu f b := by
+    intro f
+    induction f with
+    | zero => intro b; rfl
+    | succ f ih => intro b; cases b; simp only [allMatPgids, BktCommitL.allMat, ih]
+  exact BktCommitL.commit_ok ps sth rth fu orig cur order hw (by rw [← e1]; exact hf)
+    (by rw [← e2]; exact hc)
+
+/-! ### non-vacuity: a bucket tree with nested buckets; the transaction opens two levels, puts
+into the innermost bucket, creates and fills a new bucket, deletes from the middle one -/
+
+section Example
+
+private def pg (n : Nat) : Hd := { pgid := n, mat := false, unb := false, key := [] }
+private def it (k v : Nat) : Item := { key := [k.toUInt8], val := List.replicate v 0, flags := 0 }
+private def bi (k : Nat) : Item := { key := [k.toUInt8], val := List.replicate 16 0, flags := 1 }
+
+private def exInner : Bk := .mk 5 0 (.leaf (pg 5) [it 1 10, it 2 10]) []
+private def exMid : Bk := .mk 4 0 (.leaf (pg 4) [it 1 10, bi 7, it 9 3]) [([7], exInner)]
+private def exOrig : Bk := .mk 3 0 (.leaf (pg 3) [it 1 10, bi 5, bi 6]) [([5], exMid), ([6], exInner)]
+
+private def chain (l : List (Bk → Option Bk)) (b : Bk) : Option Bk := l.foldl (fun a f => a.bind f) (some b)
+
+private def exCur : Option Bk := chain [
+  modifyBk (openAt 20 exOrig [] [5]) [],
+  modifyBk (openAt 20 exOrig [[5]] [7]) [[5]],
+  modifyBk (putAt 20 [3] [1, 2, 3]) [[5], [7]],
+  modifyBk (createAt 20 [8]) [[5]],
+  modifyBk (putAt 20 [3] (List.replicate 100 1)) [[5], [8]],
+  modifyBk (putAt 20 [4] (List.replicate 100 1)) [[5], [8]],
+  modifyBk (delAt 20 [1]) [[5]]] (closeAll exOrig)
+
+example : ∃ cur, exCur = some cur ∧ WF 20 exOrig cur ∧ fuelOk 20 20 cur = true ∧
+    (∀ pg ∈ allMatPgids 20 20 cur, pg ∈ [0, 3, 4, 5]) ∧
+    ∃ cur', commitBk 256 128 64 20 [0, 3, 4, 5] cur = some cur' ∧
+      origShapeOk 20 (full exOrig 20 [] cur') = true := by
+  refine ⟨_, rfl, by decide, by decide, by decide, _, rfl, by decide⟩
+
+end Example
 
 end Bolt.C04Bkt
